@@ -443,6 +443,11 @@ def _pow_check(ctx, A, qs, MA, k, nletters, coef, wit):
             return
         ctx.check(False, "pow==matrix-power", "C14:pow-nonunit-accepted", "non-unitary string raised to %d did not raise" % k, **wit)
         return
+    if 1e-9 < abs(abs(coef) - 1) <= 1e-4 and k not in (1, -1):
+        # inside the window in which __pow__ takes the coefficient for a pure phase (|coef| within 1e-4 of 1, a constant in
+        # the source): the result is the power of the normalised string
+        want = R.matrix_power(MA / abs(coef), k)
+        ctx.event("pow:coefficient-modulus-within-1e-4-of-one")
     r = A ** k
     if isinstance(r, cirq.PauliString) and not isinstance(r, cirq.GateOperation):
         M = ref_mat(r, qs)
@@ -820,6 +825,20 @@ def sec_rand_algebra(ctx, rng, case):
     mu = A.mutable_copy()
     mu.inplace_right_multiply_by([B, c])
     ctx.check(close(ref_mat(mu, qs), c * MB @ MA), "inplace-mul==immutable-product", "C14:inplace-right-mul", lambda: str(mu), **wit)
+    # a collection operand [B, C, ...] stands for the product B*C*... (the strings inside generally do not commute), for
+    # every in-place entry point and every collection type
+    c_spec = (rand_coef(rng), rand_sparse(rng, n))
+    Cs = build(c_spec, qs, int(rng.integers(6)))
+    MC = R.smat(c_spec[1], c_spec[0], n)
+    coll = [lambda: [B, Cs], lambda: (B, Cs), lambda: iter([B, Cs]), lambda: [[B], [Cs]], lambda: [B, {qs[w_]: l_ for w_, l_ in c_spec[1].items()}, c_spec[0]]]
+    mkc = coll[int(rng.integers(len(coll)))]
+    for name, apply, want in (("inplace_left_multiply_by", lambda m_: m_.inplace_left_multiply_by(mkc()), MA @ MB @ MC),
+                              ("inplace_right_multiply_by", lambda m_: m_.inplace_right_multiply_by(mkc()), MB @ MC @ MA),
+                              ("*=", lambda m_: m_.__imul__(mkc()), MB @ MC @ MA)):
+        mu = A.mutable_copy()
+        apply(mu)
+        ctx.check(close(ref_mat(mu, qs), want), "inplace-mul==immutable-product", "C14:inplace-mul-collection:" + name,
+                  lambda: "%s with a collection of two strings = %s" % (name, mu), c2=spec_key(c_spec), **wit)
     mu = cirq.MutablePauliString(A, B)
     ctx.check(close(ref_mat(mu, qs), MA @ MB) and close(ref_mat(mu.frozen(), qs), MA @ MB) and close(ref_mat(mu.mutable_copy(), qs), MA @ MB),
               "inplace-mul==immutable-product", "C14:mutable-constructor", "", **wit)
